@@ -129,7 +129,7 @@ theorem fresh_messageGetFd (N : Nat) (env : PEnv) (ms : MsgSt) (part : Option Ms
       · intro fd' h; cases h; exact hN
       · exact Fresh.call rfl (subj_some rfl hN) (fun _ _ => by intro fd' h; cases h)
 
-theorem fresh_execP (N : Nat) (fdin : Option Handle) : Fresh N (execP fdin) (fun _ => True) := by
+theorem fresh_execP (N : Nat) (argv : List Bytes) (fdin : Option Handle) : Fresh N (execP argv fdin) (fun _ => True) := by
   unfold execP
   simp only [bind_eq, pure_eq, call_bind]
   refine Fresh.bind (R := fun dn => ∀ h, dn = some (some h) → N ≤ h) ?_ ?_
